@@ -293,8 +293,6 @@ class _World:
             while scope is not None:
                 if e.id in {a.arg for a in scope.args.args + scope.args.kwonlyargs}:
                     return ("unknown", f"parameter {e.id}")
-                for s in scope.body if True else []:
-                    pass
                 for n in walk_local(scope):
                     if isinstance(n, (ast.FunctionDef, ast.AsyncFunctionDef)) and n is not scope and n.name == e.id:
                         return ("local", n, M)
@@ -368,7 +366,6 @@ class _World:
 
     def _method(self, name: str, M: _Mod, at: ast.AST) -> tuple:
         cls = M.enclosing_cls(at)
-        mangled = name
         if cls is not None:
             meths = methods(cls)
             if name in meths:
@@ -379,7 +376,7 @@ class _World:
         cands = []
         for cname, lst in self.classes.items():
             for (MM, c) in lst:
-                if mangled in methods(c):
+                if name in methods(c):
                     cands.append((MM, c))
         if len(cands) == 1:
             MM, c = cands[0]
@@ -665,8 +662,31 @@ def _classify_manual(call: ast.Call, M: _Mod, advars: Optional[set] = None) -> t
 def _non_ad_params(node: ast.AST, pm: dict, params: set[str], root: ast.AST) -> tuple[set[str], set[str]]:
     """(params known to be AdArray, params known NOT to be AdArray) at node from enclosing isinstance tests."""
     is_ad, not_ad = set(), set()
+
+    def learn(test, truth: bool) -> None:
+        t, neg = test, False
+        if isinstance(t, ast.UnaryOp) and isinstance(t.op, ast.Not):
+            neg, t = True, t.operand
+        if isinstance(t, ast.Call) and call_name(t) == "isinstance" and len(t.args) == 2 and isinstance(t.args[0], ast.Name) \
+                and t.args[0].id in params:
+            p = t.args[0].id
+            val = truth != neg     # value of the isinstance(...) call itself
+            if _is_adarray_type(t.args[1]):
+                (is_ad if val else not_ad).add(p)
+            elif _is_ndarray_type(t.args[1]):
+                (not_ad if val else is_ad).add(p)
+
     cur, child = pm.get(node), node
     while cur is not None and child is not root:
+        # earlier siblings `if T: ... return/raise` (no else): T is false from here on
+        for fld in ("body", "orelse", "finalbody"):
+            blk = getattr(cur, fld, None)
+            if isinstance(blk, list) and any(child is s for s in blk):
+                for s in blk:
+                    if s is child:
+                        break
+                    if isinstance(s, ast.If) and not s.orelse and s.body and isinstance(s.body[-1], (ast.Return, ast.Raise)):
+                        learn(s.test, False)
         test = None
         if isinstance(cur, ast.If):
             test, in_true, in_false = cur.test, any(child is s for s in cur.body), any(child is s for s in cur.orelse)
